@@ -24,7 +24,7 @@ LEVEL_NOTE = ("trusted: the custom translator sites of tools/sites/c08.py + Xval
               "grid), the hand model of broadcasting against the threshold dimension, squeeze, mean and NaN-skipping sums (validated by "
               "correspondence); binary64 rounding of `comparison +- abs_tolerance` is not modelled (dyadic inputs only)")
 TECHNIQUE = "Coq proof over translator-regenerated discretisation/contingency kernels + extracted-model correspondence check"
-SITES = ["C08.modes", "C08.discretise", "C08.maps", "C08.init", "C08.event_tables", "C08.event_manager"]
+SITES = ["C08.modes", "C08.discretise", "C08.maps", "C08.init", "C08.event_tables", "C08.event_manager", "C08.views"]
 RULE = ("kernel: the full grid of 12 mode spellings x tolerances {None,0,1/4,1/2} x data values x thresholds on the dyadic grid k/4 chosen so "
         "that every value is on / within / outside the tolerance of some threshold, plus NaN and +-inf; arrays: 1-3 named dims of size 1-3 in "
         "shuffled dimension and coordinate order, NaN injected with p=0.15, threshold lists of 1-4 values (sorted, tied, unsorted, NaN, scalar), "
@@ -45,7 +45,7 @@ EXPECT_COUNTS = ["kernel_grid_points", "binary_discretise:ok", "binary_discretis
                  "contingency:infinite_values", "contingency:integer_storage", "contingency:pointwise_checked", "contingency:direct_count_checked",
                  "contingency:additivity_checked", "contingency:threshold=zero", "contingency:constructor_default_used", "manager_raw:ok",
                  "manager_raw:dtype=uint", "manager_raw:dtype=bool", "views:user_dict:other_order:0-d", "views:user_dict:other_order:n-d",
-                 "views:format_table", "views:object_state:ThresholdEventOperator", "views:object_state:BinaryContingencyManager",
+                 "views:format_table", "views:model_tie", "views:object_state:ThresholdEventOperator", "views:object_state:BinaryContingencyManager",
                  "views:transformed_view:kept=", "views:object_state_sequences_completed", "dataset:binary_discretise", "dataset:contingency"]
 
 OPNAME = {operator.ge: "ge", operator.gt: "gt", operator.le: "le", operator.lt: "lt", operator.eq: "eq", operator.ne: "ne"}
@@ -72,6 +72,11 @@ def P():
 def model_ok(ctx):
     b = getattr(ctx, "build", None) or {}
     return bool(b.get("driver_ok")) and "C08" not in (b.get("excluded_models") or [])
+
+
+def views_model_ok(ctx):
+    b = getattr(ctx, "build", None) or {}
+    return bool(b.get("driver_ok")) and "C08_views" not in (b.get("excluded_models") or [])
 
 
 def py_rel(k, x, c, tol):
@@ -722,7 +727,7 @@ def check_views(ctx, mgr, exp, desc, when, canonical_order=True):
     return ok
 
 
-def user_dict_views(ctx, i):
+def user_dict_views(ctx, i, use_model=True):
     """BasicContingencyManager built through its public constructor from a user's counts dict, keys in ANY order"""
     from scores.categorical import BasicContingencyManager
     rng = ctx.rng
@@ -750,6 +755,26 @@ def user_dict_views(ctx, i):
         ctx.violation("BasicContingencyManager raises on a counts dict", desc, "manager", mgr)
         return
     check_views(ctx, mgr, cells, desc, "manager built from a counts dict", canonical_order=(keys[:4] == COUNT_KEYS[:4]))
+    # tie: the regenerated _make_xr_table / format_table (site C08.views) on the dict's item list against the real table and frame
+    if use_model and not dims:
+        m = ctx.model("c08_views", enc_list([enc_list([enc_str(k), enc_num(float(cells[k]))]) for k in keys]))
+        table = mgr.get_table()
+        got = {"labels": [str(x) for x in table["contingency"].values], "values": [float(x) for x in np.asarray(table.values, float)]}
+        exp = {"labels": [core.dec_str(x) for x in m[0]], "values": [float(core.dec_num(x)) for x in m[1]]}
+        if got != exp:
+            ctx.tie_fail("gen_table_of_counts vs get_table()", desc, got, exp)
+        import warnings
+        with warnings.catch_warnings():
+            warnings.simplefilter("ignore")
+            st, df = core.call_impl(mgr.format_table)
+        if st == "ok" and hasattr(df, "loc"):
+            gotc = [float(df.loc[r, c]) for r, c, _ in FORMAT_CELLS]
+            expc = [None if x == "none" else float(core.dec_num(x)) for x in m[2]]
+            if gotc != expc:
+                ctx.tie_fail("gen_format_cells vs format_table()", desc, gotc, expc)
+        if [core.dec_str(x) for x in m[3]] != COUNT_KEYS:
+            ctx.tie_fail("key order of _get_counts vs the harness", desc, COUNT_KEYS, m[3])
+        ctx.count("views:model_tie")
     # the metrics read the counts by key: accuracy = (tp + tn) / total on these very counts
     with np.errstate(all="ignore"):
         st, acc = core.call_impl(mgr.accuracy)
@@ -981,7 +1006,7 @@ def body(ctx, use_model):
     for i in range(ctx.n(120, 1200)):
         if not ctx.time_left():
             break
-        user_dict_views(ctx, i)
+        user_dict_views(ctx, i, use_model and views_model_ok(ctx))
     for i in range(ctx.n(90, 900)):
         if not ctx.time_left():
             break
